@@ -184,7 +184,9 @@ func TestC09SmallDomains(t *testing.T) {
 	}
 	for _, s := range ab {
 		for _, from := range ab {
-			for _, to := range words("xy", 2) {
+			// the replacement alphabet overlaps the source alphabet, so that (from, to) pairs
+			// exist whose concatenations coincide ("a","ax" / "aa","x")
+			for _, to := range words("axy", 2) {
 				run(&xast.Call{Name: "translate", Args: []xast.Expr{&xast.Str{S: s}, &xast.Str{S: from}, &xast.Str{S: to}}}, "fn:translate")
 			}
 		}
